@@ -165,6 +165,12 @@ def replay_file(path: str) -> int:
     d = json.load(open(path))
     print(json.dumps({k: d[k] for k in ("property", "obligation", "clause") if k in d}, indent=1))
     nr = d.get("native_replay") or {}
+    if nr.get("script") and not nr.get("command"):
+        import tempfile
+
+        with tempfile.NamedTemporaryFile("wt", suffix=".py", delete=False) as fh:
+            fh.write(nr["script"])
+        nr["command"] = f"/venv/bin/python {fh.name}"
     cmd = nr.get("command")
     if cmd:
         print("re-running:", cmd)
